@@ -115,6 +115,7 @@ type Sym struct {
 	noInline      map[*ssa.Function]bool
 	pointees      map[*ssa.Parameter]*Term // content of the object a pointer parameter designates, as seen at the call
 	inBufferCat   bool
+	keepSlots     bool // rules that reason about a slot slice itself: do not forward slot contents
 	inSumAcc      map[*ssa.Phi]bool
 	inLoopAcc     map[*ssa.Phi]bool
 	// for closure bodies: the evaluator of the enclosing activation and the
@@ -2542,7 +2543,11 @@ func (s *Sym) slotForward(ia *ssa.IndexAddr, at *ssa.UnOp) *Term {
 	if !ok {
 		return nil
 	}
-	if _, ok := ms.Type().Underlying().(*types.Slice); !ok {
+	sl, ok := ms.Type().Underlying().(*types.Slice)
+	if !ok {
+		return nil
+	}
+	if s.keepSlots && isByteSliceOrString(sl.Elem().Underlying()) {
 		return nil
 	}
 	var store *ssa.Store
